@@ -430,7 +430,14 @@ def witness_cases():
     w1 = dict(base, id=-1, **{'class': 'witness'}, est=[0.5], windows={'explicit': [[0.25, 0.75]]})   # narrow_window_raises_refuted
     w2 = dict(base, id=-2, **{'class': 'witness'}, est=[5.0, 100.0], windows={'scalar': 3.0})          # inverted_window_raises_refuted
     w3 = dict(base, id=-3, **{'class': 'witness'}, est=[5.0], windows={'scalar': 2.5})                 # 3 points: empty bulk
-    return [enc(w1), enc(w2), enc(w3)]
+    # outside the stated range of guess_background_fraction (ASSUMPTIONS): int(len*f/2) = 0 / len/2 although the
+    # window holds plenty of points -> the guesses get an empty slice (reported under its own key)
+    x2 = [0.125 * i for i in range(81)]
+    y2 = [3.0 + 0.25 * v + 6.0 * math.exp(-(v - 5.0) ** 2 / (2 * 0.3 ** 2)) + 0.05 * math.sin(37.0 * v) for v in x2]
+    b2 = dict(base, x=x2, y=y2, var=[0.0625] * 81, **{'class': 'fraction'}, est=[5.0])
+    w4 = dict(b2, id=-4, windows={'scalar': 1.75}, fp={'f': 0.0625, 's': 1 / 3})     # 15 points, n = 0
+    w5 = dict(b2, id=-5, windows={'scalar': 1.875}, fp={'f': 1.0, 's': 1 / 3})       # 16 points, n = 8: empty bulk
+    return [enc(w1), enc(w2), enc(w3), enc(w4), enc(w5)]
 
 
 def gen_cases(rng, tier):
@@ -605,6 +612,10 @@ def property_violations(case, obs):
                 elif cls == 'ValueError' and min(counts) < 5:
                     key = 'narrow-window:raises-ValueError'
                     detail = f'; points per window {counts} (a fit needs >= 5..7)'
+                elif cls == 'ValueError' and not (0.4 <= fp['f'] < 1.0):
+                    key = 'guess-fraction:empty-guess-slice'
+                    detail = (f'; points per window {counts}, guess_background_fraction = {fp["f"]}: int(len*f/2) = '
+                              f'{[int(c_ * fp["f"] / 2) for c_ in counts]} leaves the background or the peak guess without points')
             elif 'explicit' in case['windows'] and cls == 'ValueError':
                 wv = [(unhx(a), unhx(b)) for a, b in case['windows']['explicit']]
                 counts = [sum(1 for v in xs if a <= v < b) for a, b in wv]
